@@ -101,7 +101,9 @@ pub fn run(ctx: &mut Ctx) {
     let (mut cases, bound): (Vec<Case>, u32) = cases_for(ctx);
     // one program per literal of the C09 space (class label = group labels)
     for l in crate::checks::c09::literals() {
-        if matches!(l.expect, crate::checks::c09::Expect::Reject(_)) {
+        // spelling variants of a literal (an underscore between digits) parse to the same library as the
+        // original, so rendering them adds nothing
+        if matches!(l.expect, crate::checks::c09::Expect::Reject(_)) || l.label.contains("underscore-between-digits") {
             continue;
         }
         cases.push(Case { group: "literal", labels: vec![l.label.clone()], lx: crate::checks::c09::program(&l), nt: crate::nt::NT::Nil });
